@@ -13,7 +13,7 @@ from vfw.core import Violation, jsonable
 from vfw.model import links as L
 
 PROPERTY = "C17"
-SIZES = {"quick": 3000, "thorough": 60000}
+SIZES = {"quick": 6000, "thorough": 60000}
 RULE = (
     "(a) exhaustive: all 5^4 = 625 tables over 2 faces x 1 axis, each with the faces listed in both orders; (b) exhaustive: every single edit and every "
     "double edit (slot replaced by any other value incl. None, a missing face index 7, a missing axis 'Q', a flipped "
